@@ -17,7 +17,7 @@ RULE = ("directory trees (depth <=3, thorough <=5; empty directories, directorie
         "directories must equal the actual output tree exactly, and each page must equal the page of a separate "
         "single-file run after removing the title lines and the module name. Non-trivial: depth >=2, >=1 directory "
         "without CMake files and >=1 non-CMake file whose name contains 'cmake'; distinct by SHA-1 of the case")
-RULE_MORE = 'output directory prefilled with newer stale files under the names the run writes; a symbolic link to a subdirectory with input.follow_symlinks off / on (not followed = not processed, followed = an ordinary directory). Later: same path documented before the tree was filled; input through a symlinked parent; file links; two adjacent directory links.'
+RULE_MORE = 'output directory prefilled with newer stale files under the names the run writes; a symbolic link to a subdirectory with input.follow_symlinks off / on (not followed = not processed, followed = an ordinary directory). Later: same path documented before the tree was filled; input through a symlinked parent; file links; two adjacent directory links. (round 10) the input below directories named `proj (copy)/a+b?`.'
 ASSUMPTIONS = ["no exclude patterns (C15's domain)", "the input directory holds a .cmake file when auto-exclusion is on",
                "directory-listing orders are emulated by permuting os.scandir inside the harness process"]
 BUDGET = {"quick": {"shards": 8, "examples": 80}, "thorough": {"shards": 16, "examples": 1500}}
@@ -42,6 +42,7 @@ def strategy(tier):
         "warm": st.sampled_from([False, False, True]),
         # the input path passes through a symbolic link (a linked parent directory)
         "via_link": st.sampled_from([False, False, False, True]),
+        "oddloc": st.sampled_from([False, True, False]),
     })
 
 
@@ -102,6 +103,11 @@ def evaluate(case):
         res.labels.append("dir-without-cmake")
     with S.Sandbox("c13") as sb:
         inp = sb.path("in")
+        if case.get("oddloc") and not case.get("via_link"):
+            # the absolute location of the input has characters that are special in regular expressions and glob patterns
+            inp = sb.path("proj (copy)", "a+b?", "in")
+            os.makedirs(os.path.dirname(inp))
+            res.labels.append("input-below-directories-with-regex-metacharacters")
         if case.get("warm"):
             res.labels.append("same-path-documented-before-the-tree-was-filled")
 
